@@ -88,21 +88,21 @@ Qed.
 
 Lemma phase_okb_spec : forall i p, phase_okb i p = true <-> phase_ok i p.
 Proof.
-  intros i p. unfold phase_okb, phase_ok. rewrite !andb_true_iff, agreeb_agree, forallb_forall, modes_okb_spec.
+  intros i p. unfold phase_okb, phase_ok. rewrite !andb_true_iff, !agreeb_agree, forallb_forall, modes_okb_spec.
   split.
-  - intros [[H1 H2] H3]. split; [exact H1|]. split; [|exact H3].
+  - intros [[[[H1 H2] H3] H4] H5]. split; [exact H1|]. split; [|split; [exact H3 | split; [exact H4 | exact H5]]].
     intros n Hn. apply has_successful_runb_spec. apply H2. exact Hn.
-  - intros [H1 [H2 H3]]. split; [split; [exact H1|] | exact H3].
+  - intros [H1 [H2 [H3 [H4 H5]]]]. split; [split; [split; [split; [exact H1|] | exact H3] | exact H4] | exact H5].
     intros n Hn. apply has_successful_runb_spec. apply H2. exact Hn.
 Qed.
 
 Lemma entity_okb_spec : forall i e, entity_okb i e = true <-> entity_ok i e.
 Proof.
-  intros i e. unfold entity_okb, entity_ok. rewrite !andb_true_iff, agreeb_agree, forallb_forall, modes_okb_spec.
+  intros i e. unfold entity_okb, entity_ok. rewrite !andb_true_iff, !agreeb_agree, forallb_forall, modes_okb_spec.
   split.
-  - intros [[H1 H2] H3]. split; [exact H1|]. split; [|exact H3].
+  - intros [[[H1 H2] H3] H4]. split; [exact H1|]. split; [|split; [exact H3 | exact H4]].
     intros n Hn. apply has_successful_runb_spec. apply H2. exact Hn.
-  - intros [H1 [H2 H3]]. split; [split; [exact H1|] | exact H3].
+  - intros [H1 [H2 [H3 H4]]]. split; [split; [split; [exact H1|] | exact H3] | exact H4].
     intros n Hn. apply has_successful_runb_spec. apply H2. exact Hn.
 Qed.
 
